@@ -7,6 +7,8 @@ HSM-OUTCOME.no-action : after the search every handler call and the transition m
                         the other outcomes the stored state is the state the chart was in when the event arrived.
 HSM-OUTCOME.top       : the outermost state answers IGNORED to everything and has no effect; overrides delegate to it unless they handle
                         the event themselves.
+HSM-CONTENT.O8-offer  : ghost depth on the active chain (zone domain, any nesting depth): offer number n goes to the ancestor of the current
+                        state at depth n, and the guard fallback re-asks exactly the state that declined.
 HSM-CURSOR.I1         : every method that moves the cursor leaves temp.fun == state.fun, so the search starts at the current state.
 HSM-SIGSET            : the signals each processor method may send.
 Not decided: what a user's handler returns (runtime).
@@ -24,6 +26,9 @@ def check(run, model, tier):
     run.rule('HSM-OUTCOME.top', 'top returns IGNORED, no effects; overrides delegate')
     run.rule('HSM-CURSOR.I1', 'temp.fun == state.fun at every normal exit of init/dispatch/is_in/child_state')
     run.rule('HSM-SIGSET', 'signals each processor method may send')
+    run.rule('HSM-CONTENT.O8-offer', 'the n-th offer of the event goes to depth n of the active chain (current state, parent, ...); the EMPTY re-ask goes to the state that just declined')
+    cc = hsmrules.record_content_obligations(run, model, 'dispatch', cursor_at_entry=False, kinds={'O8-offer'})
+    run.floor('offer obligations in dispatch (event offer + guard fallback)', cc['O8-offer'], 2)
     hsmrules.outcome_rules(run, model)
     hsmrules.cursor_invariant(run, model, ['init', 'dispatch', 'is_in', 'child_state'])
     n = hsmrules.signal_sets(run, model, ['dispatch'])
